@@ -141,10 +141,10 @@ ASSUME \A k \in Kernels : DOMAIN Outputs(k) # {}
 
 \* ---- shapes, contents, sizes ---------------------------------------------------------------
 Chunk == 4096                 \* schedule(static, 4096) in score_and_assign; a multiple is a chunk border
-Shapes == {<<1, 1>>, <<1, 2>>, <<2, 1>>, <<1, 3>>, <<3, 1>>, <<2, 2>>, <<2, 3>>, <<3, 2>>, <<3, 3>>, <<2, 5>>,
-           <<5, 2>>, <<4, 4>>, <<3, 5>>, <<2, Chunk>>, <<Chunk, 2>>}
-          \cup (IF Thorough THEN {<<1, Chunk>>, <<Chunk, 1>>, <<3, Chunk>>, <<5, 5>>, <<4, 7>>, <<7, 4>>,
-                                  <<3, 2 * Chunk>>, <<2, 65535>>} ELSE {})
+Shapes == {<<1, 1>>, <<1, 3>>, <<3, 1>>, <<2, 2>>, <<2, 3>>, <<3, 2>>, <<3, 3>>, <<2, 5>>, <<5, 2>>, <<4, 4>>,
+           <<2, Chunk>>, <<Chunk, 2>>, <<2, 65535>>}                                  \* 65535: the uint16 limit
+          \cup (IF Thorough THEN {<<1, 2>>, <<2, 1>>, <<3, 5>>, <<1, Chunk>>, <<Chunk, 1>>, <<3, Chunk>>, <<5, 5>>,
+                                  <<4, 7>>, <<7, 4>>, <<3, 2 * Chunk>>} ELSE {})
 BigShapes == {<<150, 260>>} \cup (IF Thorough THEN {<<512, 512>>, <<300, 300>>} ELSE {})
 BigContents == {"chk0", "dots", "full", "hstr"}
 
@@ -286,12 +286,16 @@ PickKernel(k) == /\ pc = "kernel"
                  /\ d' = [d EXCEPT !.k = k]
                  /\ pc' = IF Fam(k) \in {"img", "sparse"} THEN "shape" ELSE "n"
 PickShape(s) == /\ pc = "shape" /\ s[1] >= MinR(d.k) /\ s[2] >= MinC(d.k)
+                \* coverlaps needs an npk1 x npk2 matrix from the caller: isolated pixels on the widest shapes
+                \* would ask for gigabytes
+                /\ (d.k = "coverlaps" => s[1] * s[2] <= 2 * Chunk)
                 /\ d' = [d EXCEPT !.ns = s[1], !.nf = s[2]] /\ pc' = "c1"
 PickBigShape(s) == /\ pc = "shape" /\ Big(d.k)
                    /\ d' = [d EXCEPT !.ns = s[1], !.nf = s[2], !.big = TRUE] /\ pc' = "c1"
 PickContent(c) == /\ pc = "c1" /\ (d.big => c \in BigContents)
                   \* sparse_smooth scans three whole rows per pixel: on very wide images only few-pixel contents
                   /\ (d.k = "sparse_smooth" /\ d.nf > 2 * Chunk => c \in FewPixels)
+                  /\ (~Thorough /\ d.nf > 2 * Chunk => c \in FewPixels)     \* quick scope: widest shape, few pixels
                   /\ (d.k = "splat" => c = "empty")                        \* rgba is output only
                   /\ d' = [d EXCEPT !.c1 = c] /\ pc' = "c2"
 PickContent2(c) == /\ pc = "c2" /\ c \in C2s(d.k) /\ d' = [d EXCEPT !.c2 = c]
